@@ -3,7 +3,9 @@
 MC   : MC_WriterProto (content-hiding VIEW, full alphabet) proves Sticky / ErrSet / FinishOk /
        AppendOnly on the specification.
 GEN  : every call sequence up to length N over the reduced 14-call alphabet (history in state,
-       tlc -dump), plus tlc -simulate programs over the full alphabet.
+       tlc -dump), plus tlc -simulate programs over the full alphabet, plus every call of the full
+       alphabet as the first possibly-refused call in each of ten writer contexts, followed by a legal
+       continuation.
 EXEC : each program is replayed on the four real writer configurations; one event per call.
 JUDGE: Trace_WriterProto validates every recorded event (result, IsInStruct, and at every
        successful Finish that all bytes emitted so far decode — under the TLA+ decoders — to
@@ -16,6 +18,16 @@ import time
 from vlib import core, wproto
 
 PROP = "C12"
+
+
+# every call of the full alphabet as the FIRST possibly-refused call in every writer context, followed by calls that are
+# legal had it succeeded: a call that fails without setting the sticky error lets the continuation through
+CONTEXTS = [([], [3, 14]), ([8], [3, 9, 14]), ([12], [3, 13, 14]), ([10], [1, 3, 11, 14]), ([10, 1], [1, 3, 11, 14]),
+            ([10, 1, 3], [1, 3, 11, 14]), ([2], [3, 14]), ([8, 3], [3, 9, 14]), ([3, 14], [3, 14]), ([10, 1, 8], [3, 9, 11, 14])]
+
+
+def context_programs(nalpha):
+    return [tuple(pre + [c] + post) for pre, post in CONTEXTS for c in range(1, nalpha + 1)]
 
 
 def run(tier):
@@ -37,6 +49,7 @@ def run(tier):
             cases += wproto.make_cases(alphabet, mode, progs)
             sp, r2 = wproto.simulate_programs(wd, mode, simdepth, nsim, core.seed())
             cases += wproto.make_cases(alphabet, mode, sp, prefix="sim/")
+            cases += wproto.make_cases(alphabet, mode, context_programs(len(alphabet)), prefix="ctx/")
         rmc = core.finish_tlc(pmc, dmc, "MC_WriterProto(mc)")
         states += rmc["distinct"]
         trans += rmc["generated"]
